@@ -362,6 +362,10 @@ func (pl *Plugin) NominateReservation(ctx context.Context, cycleState fwktype.Cy
 	}
 
 	if len(reservationInfos) == 1 && state.hasAffinity {
+		// an allocateOnce reservation that has been allocated cannot be nominated again, even if it is the only choice
+		if rInfo := reservationInfos[0]; rInfo.IsAllocateOnce() && rInfo.GetAllocatedPods() > 0 {
+			return nil, nil
+		}
 		return reservationInfos[0], nil
 	}
 
